@@ -67,7 +67,7 @@ def replay_of(t, bindir, hx, fault=None, extra=None):
 # ---------------------------------------------------------------------------
 # Phase A: the k-th read/write/fsync/close on any data descriptor fails
 
-def phase_faults(c, bindir, hx, model_cases):
+def phase_faults(c, bindir, hx, model_cases, shard_cases):
     tools = tr.catalogue()
     errs = list(ERRNOS.items())
     jobs = []
@@ -122,6 +122,8 @@ def phase_faults(c, bindir, hx, model_cases):
         if kind == "fatal" and not hit and rc != 0:
             c.broken.append("control: %s exits %s although fault %s was never delivered: %s" % (t.label, rc, fault, err[-200:]))
         model_cases.append((t, fault, rc, ev, base_ev))
+        if t.label == "shard":
+            shard_cases.append((t, fault, rc, ev, base_ev, base_outs))
     return base
 
 
@@ -605,7 +607,7 @@ SINGLE_THREADED = lambda t: t.kind == "util" and t.name != "shard"
 ERRNO_BY_NAME = {"EIO": 5, "ENOSPC": 28, "EPIPE": 32, "EINTR": 4, "EFBIG": 27, "EISDIR": 21}
 
 
-def phase_model(c, drv, hx, model_cases, kernel_cases, child_cases, strace_cases=()):
+def phase_model(c, drv, hx, model_cases, kernel_cases, child_cases, strace_cases=(), shard_cases=()):
     impl = os.path.join(hx, "hx_exit")
     # D1: library level -- mini tool on the real util::PartialRead / util::FileStream vs tool_run
     n_small, n_big = (500, 60) if c.tier == "quick" else (6000, 600)
@@ -673,6 +675,19 @@ def phase_model(c, drv, hx, model_cases, kernel_cases, child_cases, strace_cases
         mlines.append("W %s %d %d %s 1" % (name, L, lines_answered, term))
         expect.append((rc_to_status(rc), "class"))
         meta.append((name, (k, term, mode), False))
+    # D6: shard (threads): per output descriptor the order of calls is deterministic; replay each descriptor's
+    #     sub-trace through threaded_file_run (lines routed to it = content of the file in the fault-free run)
+    for t, fault, rc, ev, base_ev, base_outs in shard_cases:
+        if rc == "timeout":
+            continue
+        for fd, oname in zip((3, 4), t.outputs):
+            content = base_outs.get(oname) or b""
+            lens = [len(x) for x in content.split(b"\n")[:-1]]
+            sub = [e for e in ev if e[1] == fd]
+            mlines.append("F %d %s | %s" % (fd, ",".join(str(x) for x in lens) or "-", " ".join(outcome_tokens(sub))))
+            hit_here = any(e[3] < 0 for e in sub)
+            expect.append((rc_to_status(rc) if hit_here or rc == 0 else None, fmt_events(sub)))
+            meta.append((t, ("shard-fd", fd) + tuple(fault), "prefix"))
     # D5: iostream tools under strace injection: the segmentation of stdout into write(2) calls is the one observed in the
     #     fault-free run; the outcomes are the ones strace reports for the faulted run
     for t, inject, rc, calls, clean_calls in strace_cases:
@@ -701,6 +716,12 @@ def phase_model(c, drv, hx, model_cases, kernel_cases, child_cases, strace_cases
     bad = []
     for l, o, (est, eev), m in zip(mlines, out, expect, meta):
         st, _, tr = o.partition(" ")
+        if m[2] == "prefix":
+            # another thread / descriptor may have ended the process first: the real sub-trace is then a prefix of the model's
+            ok = (est is None or st == est) and (tr == eev if est is not None else tr.startswith(eev))
+            if not ok:
+                bad.append((l, o, est, eev, m))
+            continue
         if eev == "class":
             ok = (st == est) if est.startswith("exit") else st.startswith("sig")
         elif eev is None:
@@ -734,14 +755,15 @@ def main(argv):
     bindir = os.path.dirname(repo_bin("x"))
     hx = os.path.dirname(hx_bin("x"))
     model_cases, kernel_cases, child_cases, strace_cases = [], [], [], []
-    base = phase_faults(c, bindir, hx, model_cases)
+    shard_cases = []
+    base = phase_faults(c, bindir, hx, model_cases, shard_cases)
     phase_kernel(c, bindir, hx, base, kernel_cases)
     phase_strace(c, bindir, hx, strace_cases)
     phase_children(c, bindir, hx, child_cases)
     if drv is None:
         c.broken.append("extraction/driver build failed: " + dlog[-600:])
     else:
-        phase_model(c, drv, hx, model_cases, kernel_cases, child_cases, strace_cases)
+        phase_model(c, drv, hx, model_cases, kernel_cases, child_cases, strace_cases, shard_cases)
     shutil.rmtree(SCRATCH, ignore_errors=True)
     if os.environ.get("VERIF_DEBUG"):
         for what, obj, found in c.violations:
